@@ -121,8 +121,11 @@ CONSTANTS Parties,        \* participants of the session
           Outsiders,      \* non-participants that can reach OnMsg
           Table,          \* entries of ONE phase of one adapter
           MaxSpoof,       \* bound on adversarial transmissions
-          TrustEmbedded   \* FALSE = the code (attribution = transport sender; an envelope embedding a sender is not the wire
+          TrustEmbedded,  \* FALSE = the code (attribution = transport sender; an envelope embedding a sender is not the wire
                           \* format and is dropped); TRUE = anti-vacuity variant (attribute to the embedded claim)
+          NearestIndex    \* FALSE = the code (the party index is found by exact match: a non-participant gets none and the
+                          \* library rejects it); TRUE = must-fail variant (index by lower-bound search without equality
+                          \* check: a non-participant is filed under the smallest participant above it)
 
 VARIABLES step,   \* [Parties -> number of library steps emitted]
           net,    \* in-flight transmissions [from (transport sender), to, url, org (who produced the content), emb (embedded claim | 0)]
@@ -152,7 +155,11 @@ Emit(s) == /\ CanEmit(s)
            /\ net' = net \cup {[from |-> s, to |-> q, url |-> u, org |-> s, emb |-> 0] : q \in Parties \ {s}, u \in UrlsOf(step[s] + 1)}
            /\ UNCHANGED <<got, pin, equiv, nsp>>
 
-Attribute(m) == IF TrustEmbedded /\ m.emb # 0 THEN m.emb ELSE m.from
+Above(x) == {q \in Parties : q > x}
+Attribute(m) == IF TrustEmbedded /\ m.emb # 0 THEN m.emb
+                ELSE IF NearestIndex /\ m.from \notin Parties /\ Above(m.from) # {}
+                  THEN CHOOSE q \in Above(m.from) : \A r \in Above(m.from) : q <= r
+                ELSE m.from
 Accepted(m) == TrustEmbedded \/ m.emb = 0
 
 Deliver(m) ==
